@@ -28,6 +28,7 @@ import (
 	"net/http"
 	"net/http/httputil"
 	"os"
+	"strconv"
 	"strings"
 	"time"
 	"unicode/utf8"
@@ -106,10 +107,24 @@ func (r *Response) WriteTo(w io.Writer) (int64, error) {
 
 var _ encoding.BinaryMarshaler = (*Response)(nil)
 
+// bodyLengthField is written into the stored form of a response whose body had
+// no framing of its own (no Content-Length, not chunked: delimited by the end
+// of the connection, or handed over like that by the transport after
+// decompression or over HTTP/2). Such a body is dumped as it is, and nothing in
+// the stored bytes would say where it ends: a truncated entry would decode as a
+// shorter response. [ParseResponse] checks the length and removes the field.
+const bodyLengthField = "X-Httpcache-Stored-Body-Length"
+
 func (r Response) MarshalBinary() ([]byte, error) {
 	respBytes, err := httputil.DumpResponse(r.Data, true)
 	if err != nil {
 		return nil, fmt.Errorf("failed to marshal response: %w", err)
+	}
+	if r.Data.ContentLength < 0 && len(r.Data.TransferEncoding) == 0 {
+		if i := bytes.Index(respBytes, []byte("\r\n\r\n")); i >= 0 {
+			line := fmt.Sprintf("\r\n%s: %d", bodyLengthField, len(respBytes)-(i+4))
+			respBytes = append(respBytes[:i:i], append([]byte(line), respBytes[i:]...)...)
+		}
 	}
 
 	var buf bytes.Buffer
@@ -156,6 +171,12 @@ func ParseResponse(data []byte, req *http.Request) (resp *Response, err error) {
 	_ = r.Body.Close()
 	if err != nil {
 		return nil, errors.Join(errInvalidResponse, fmt.Errorf("failed to read response body: %w", err))
+	}
+	if v := r.Header.Get(bodyLengthField); v != "" && r.ContentLength < 0 && len(r.TransferEncoding) == 0 {
+		if n, err := strconv.Atoi(v); err != nil || n != len(body) {
+			return nil, errors.Join(errInvalidResponse, fmt.Errorf("stored body has %d bytes, %s recorded", len(body), v))
+		}
+		r.Header.Del(bodyLengthField)
 	}
 	r.Body = io.NopCloser(bytes.NewReader(body))
 	// The serialised form may carry a Connection field that belongs to the dump,
